@@ -286,7 +286,7 @@ PROPS = {
                              search=[('awsops', ['-n', 20000]), ('hist', ['-n', 1500, '-scans', 12]), ('hist', ['-n', 1000, '-scans', 12, '-focus', 'churn']), ('hist', ['-n', 32, '-scans', 8, '-focus', 'churn', '-slow']), ('forever', [])]),
                 aspects=['journal', 'outcome', 'cached-desired', 'hist:removals', 'hist:outcome', 'forever-notingroup'], monitors=['C19'],
                 theorems=['Esc.P.C19_delete', 'Esc.P.C19_count', 'Esc.P.C19_refuse', 'Esc.P.C19_k8s_after_cloud', 'Esc.P.C19_scan_batches',
-                          'Esc.P.C19_not_member_scan', 'Esc.P.C19_not_member_fatal', 'Esc.P.C19_membership_fresh', 'Esc.P.forever_stops_on_every_error', 'Esc.P.gen_deleteGuard_eq', 'Esc.P.C19_source_guard', 'Esc.P.gen_aws_translation_complete'],
+                          'Esc.P.C19_not_member_scan', 'Esc.P.C19_not_member_fatal', 'Esc.P.C19_membership_fresh', 'Esc.P.forever_stops_on_every_error', 'Esc.P.gen_deleteGuard_eq', 'Esc.P.C19_source_guard', 'Esc.P.gen_aws_translation_complete', 'Esc.P.C19_source_delete_order', 'Esc.P.gen_tryDelete_translation_complete'],
                 technique='Lean 4 theorem over the model of aws.NodeGroup.DeleteNodes and TryDeleteNodes (induction over the node list, every failing index) lifted to the scan journal shape + differential correspondence + monitors',
                 level_text='C19_delete: DeleteNodes refuses without any call when the minimum would be breached, else terminates (with decrement) exactly the instances of a prefix of the given nodes, stopping at the first non-member (not-in-group) '
                            'or failed call; C19_count <= desired-min; C19_k8s_after_cloud / C19_scan_batches: Node deletions only after the whole batch was accepted, for both batches of a scan; C19_not_member_*: the error ends the scan and makes RunOnce fatal; C19_membership_fresh: "member" and "minimum" are those of an answer the cloud gave in this same scan (distinct cloud groups). '
@@ -410,7 +410,7 @@ SOURCE_NOTES = {
     'C15': 'C15_scan_no_restamp_in_view: every UPDATE of a scan names a node that carries no escalator taint in that scan\'s view, or is a removal (C15_removal_lowers_count) — no two-step re-stamp inside one scan; monitored as C15.restampBad.',
     'C16': 'Assembly (stream assemble): assemble_groups — the options handed to the controller are those of the file, entry by entry.',
     'C17': 'Tie B (aws.go IncreaseSize): gen_increaseSize_eq; C17_source_dispatch — rejected before any call iff d <= 0 or current + d > max, otherwise exactly d to the fleet path or exactly current + d. Assembly: assemble_ready_timeout.',
-    'C19': 'Tie B (aws.go DeleteNodes): gen_deleteGuard_eq; C19_source_guard — refused as a whole iff it would breach the minimum. forever_stops_on_every_error + stream forever (the real RunForever): a not-in-group error ends the loop.',
+    'C19': 'Tie B (aws.go DeleteNodes): gen_deleteGuard_eq; C19_source_guard — refused as a whole iff it would breach the minimum. C19_source_delete_order (scale_down.go TryDeleteNodes, as translated): the Kubernetes DeleteNodes is called iff the cloud call was made and returned no error. forever_stops_on_every_error + stream forever (the real RunForever): a not-in-group error ends the loop.',
     'C20': 'forever_stops_on_every_error (regenerated facts about RunForever) + stream forever on the real RunForever: after a transient failure the loop goes on scanning, after a failed rebuild it returns (finding T5) and does not panic.',
 }
 for _p, _t in SOURCE_NOTES.items():
